@@ -792,6 +792,9 @@ def rule_gate_for(ctx, rep, members):
 
 def run(ctx, rep):
     rule_gate(ctx, rep)
+    from . import c02 as _c02
+
+    _c02.rule_release_order(ctx, rep)  # sole ownership is also granted to whoever observes 1 from its own decrement (`drop`, an `into_inner`): an acquire must follow before the value is touched
     # premise of the verdict: the count equals the number of owning handles on every path, unwinding included
     from . import c12 as _c12
 
